@@ -296,9 +296,11 @@ class CallMixin:
             else:
                 raise Unsupported(f"modifies clause {m}")
         if not c.pure:
+            a1 = st.alloc
             a2 = z3.Int(fresh_name("alloc"))
             st.pc.append(a2 >= st.alloc)
             st.alloc = a2
+            self.assume_new_objects_wf(st, a1, a2)
         if c.logs:
             o2 = z3.Const(fresh_name("out"), st.out.sort())
             st.pc.append(z3.PrefixOf(st.out, o2))
@@ -340,6 +342,26 @@ class CallMixin:
                 if argn is not None and isinstance(argn, (ast.Name, ast.Attribute)):
                     self.assign(argn, val, st)
         return res
+
+    def assume_new_objects_wf(self, st, a1, a2):
+        """no dangling references: every reference stored in a field of an object that the callee allocated (a1 < r <= a2)
+        is an allocated object (<= a2) or None.  True of the real heap at every point; stated for the reference-typed field
+        arrays this path has touched so far."""
+        r = z3.Int(fresh_name("wfr"))
+        j = z3.Int(fresh_name("wfj"))
+        new = z3.And(a1 < r, r <= a2)
+        keys = set(st.heap) | set(self.entry_heap)
+        for key in sorted(keys):
+            fld, _, idx = key.rpartition("#")
+            ts = self.reg.field_types.get(fld)
+            if ts is None:
+                continue
+            ty = parse_type(ts)
+            arr = st.heap.get(key, self.entry_heap.get(key))
+            if isinstance(ty, TRef) and idx == "0":
+                st.pc.append(z3.ForAll([r], z3.Implies(new, z3.And(arr[r] >= 0, arr[r] <= a2))))
+            elif isinstance(ty, TList) and isinstance(ty.elem, TRef) and idx == "0":
+                st.pc.append(z3.ForAll([r, j], z3.Implies(z3.And(new, 0 <= j, j < z3.Length(arr[r])), z3.And(arr[r][j] > 0, arr[r][j] <= a2))))
 
     def check_havoc_allowed(self, st, key, node):
         c = self.cur[1]
